@@ -525,7 +525,8 @@ def run_for(prop, tier, only=None):
             continue
         fb = per_fn.get(f.get("emit_name") or s["name"]) or per_fn.get(s["name"])
         row = {"function": s["name"], "repo_location": "%s:%d" % (f["file"], f["line"]), "body_sha256_16": f["sha"],
-               "loops_annotated": f["loops"], "impl_header": f["orig_header"]}
+               "loops_annotated": f["loops"], "closures_annotated": f.get("closures", 0), "impl_header": f["orig_header"],
+               "emitted_as": f.get("emit_name")}
         ferrs = [e for e in errors if e["fn"] is f]
         sem = [e for e in ferrs if SEMANTIC.search(e["msg"])]
         other = [e for e in ferrs if e not in sem]
